@@ -381,11 +381,21 @@ def sym_computed_pkg(vc):
     from contracts.common import mk_package2, tree_writes_under
     fk = vc.under_contract(P + 'add_computed_field.py', ['add_computed_field', 'func'])
     vc.under_contract(P + 'add_computed_field.py', ['get_new_fields'])
-    for tkind in ('name', 'spec'):
+    def mutable_parts(v, acc=None):
+        acc = {} if acc is None else acc
+        if isinstance(v, (PyDict, PyList)) and id(v) not in acc:
+            acc[id(v)] = v
+            for x in (v.d.values() if isinstance(v, PyDict) else v.items):
+                mutable_parts(x, acc)
+        return acc
+    for tkind in ('name', 'spec', 'spec-nested'):
         def thunk(it, tkind=tkind):
             maker = real_function(it, 'dataflows.processors.add_computed_field', 'add_computed_field')
             tname = sym_str(it, 'target')
             target = tname if tkind == 'name' else PyDict({'name': tname, 'type': sym_str(it, 'ttype')})
+            if tkind == 'spec-nested':
+                # a field descriptor with structured properties (constraints, a list of enum values)
+                target.d['constraints'] = PyDict({'minimum': 0, 'enum': PyList([1, 2])})
             f0 = PyDict({'target': target, 'operation': 'format', 'with': sym_str(it, 'fmt')})
             func = it.call(maker, [PyList([f0])], dict(resources=None))
             package = mk_package2(it)
@@ -402,13 +412,17 @@ def sym_computed_pkg(vc):
                     v = apps[0].value
                     d = dict(v[1:]) if isinstance(v, tuple) and v and v[0] == 'dict' else None
                     check(it, 'appended-descriptor-has-target-name[%s]' % tkind, d is not None and d.get('name') is tname and
-                          (d.get('type') == 'string' if tkind == 'name' else len(d) == 2))
+                          (d.get('type') == 'string' if tkind == 'name' else len(d) == (2 if tkind == 'spec' else 3)))
                     # every resource gets a field descriptor OF ITS OWN: the object appended here is created for this
                     # resource, it is not the caller's spec dict (which would then sit in several schemas at once, so that
                     # a later in-place edit of one resource's field reaches the others -- C10 / C15)
                     raw = getattr(apps[0], 'raw', None)
                     check(it, 'appended-descriptor-is-not-shared-with-other-resources[%s]' % tkind,
                           raw is not None and raw is not target and raw is not f0.d.get('target'))
+                    if tkind == 'spec-nested':
+                        # ... all the way down: no dict / list inside it is one of the caller's (or, through it, another resource's)
+                        check(it, 'nothing-inside-the-appended-descriptor-is-shared-either[%s]' % tkind, raw is not None and
+                              not (set(mutable_parts(raw)) & set(mutable_parts(target))))
                 cover(it, 'resource-iter-reachable[%s]' % tkind)
             it.loops['func#L0'] = LoopSpec(at_start=res_start, at_end=res_end)
             it.loops['func#L2'] = LoopSpec(modes=('exit',))
